@@ -307,7 +307,7 @@ func (fc *FuncCtx) posStr(p token.Pos) string {
 	if !p.IsValid() {
 		return "-"
 	}
-	ps := fc.eng.fset.Position(p)
+	ps := fc.pkg.Fset.Position(p)
 	f := ps.Filename
 	if i := strings.Index(f, "/pkg/"); i >= 0 {
 		f = f[i+1:]
@@ -629,7 +629,7 @@ func (fc *FuncCtx) typeFacts(t *Term, typ types.Type) *Term {
 // fieldKey gives a stable heap key for a struct field.
 func (fc *FuncCtx) fieldKey(f *types.Var) string {
 	f = f.Origin()
-	ps := fc.eng.fset.Position(f.Pos())
+	ps := fc.pkg.Fset.Position(f.Pos())
 	file := ps.Filename
 	if i := strings.LastIndex(file, "/"); i >= 0 {
 		file = file[i+1:]
